@@ -273,6 +273,19 @@ func concPrograms(thorough bool) []*cprog {
 		{Name: "P8 login;cleanup;login || LOGIN+EV || LOGIN+EV", Sess: ev3, Logins: l2, Bound: -1,
 			Threads: [][]Op{{L(0), CU, CR, L(1)}, {A(0, 0), A(0, 1)}, {A(1, 0), A(1, 1)}}, Suffix: probe2},
 	}
+	// the cheapest programs first: under a change that multiplies the scheduling points (a lock-free structure
+	// whose every operation is a point) the tier's time may run out in the largest program, and whatever comes
+	// after it would not be explored at all
+	sort.SliceStable(ps, func(i, j int) bool {
+		cost := func(p *cprog) int {
+			n := 1
+			for _, t := range p.Threads {
+				n *= 1 + 2*len(t)
+			}
+			return n * len(p.Threads)
+		}
+		return cost(ps[i]) < cost(ps[j])
+	})
 	// the two-thread programs once more with releases as scheduling points (preemption-bounded: the space
 	// multiplies)
 	for _, p := range append([]*cprog{}, ps...) {
